@@ -26,6 +26,7 @@ import (
 	"github.com/eapache/channels"
 
 	"github.com/osrg/gobgp/v4/internal/pkg/table"
+	"github.com/osrg/gobgp/v4/pkg/apiutil"
 	"github.com/osrg/gobgp/v4/pkg/packet/bgp"
 )
 
@@ -298,8 +299,10 @@ func c01GenRoute(r *vRand, sc *c01Scenario, from *vwPeer) *c01Route {
 	if r.chance(12) {
 		rt.segs = append(rt.segs, []uint32{1, uint32(r.pick(100, 65002, 65000)), 400})
 	}
-	if r.chance(5) {
-		rt.segs = append([][]uint32{{3, 65100}}, rt.segs...)
+	if r.chance(6) {
+		// a leading AS_CONFED_SEQUENCE; sometimes it holds the local AS (a loop among confederation
+		// members), also as the ONLY segment of the path (AS_PATH length 0 by the counting rules)
+		rt.segs = append([][]uint32{{3, uint32(r.pick(65100, 65100, 65000))}}, rt.segs...)
 	}
 	if from.spec.kind != "ebgp" {
 		if r.chance(25) {
@@ -688,6 +691,22 @@ func c01Run(t *testing.T, o *vOut, r *vRand, nOps int, idx int, addPathMode bool
 				sc.local[fmt.Sprintf("%d#0", rt.pfx)] = rt
 				note("ladd %s", rt.line())
 				o.stat("op_local_add", 1)
+			} else if len(sc.local) > 0 && r.chance(25) {
+				// the "delete all locally generated paths" form of DeletePath (no path, no UUID),
+				// through the real management call; for the model it is one ldel per local route
+				if err := w.s.DeletePath(apiutil.DeletePathRequest{DeleteAll: true}); err != nil {
+					t.Fatalf("DeletePath(all): %v", err)
+				}
+				keys := make([]string, 0, len(sc.local))
+				for k := range sc.local {
+					keys = append(keys, k)
+				}
+				sort.Strings(keys)
+				for _, k := range keys {
+					note("ldel %d 0", sc.local[k].pfx)
+					delete(sc.local, k)
+				}
+				o.stat("op_local_del_all", 1)
 			} else {
 				pfx := r.intn(len(c01Prefixes))
 				w.local(c01LocalPath(&c01Route{pfx: pfx}, true, w.now()))
